@@ -48,6 +48,9 @@ pub trait Acc: Sized + Clone + std::fmt::Debug + Send + Sync {
     fn new_alt() -> Self {
         Self::new()
     }
+    /// overwrite self with a copy of `src` through the inner type's own `Clone::clone_from`, directly (`via_vec` false)
+    /// or through the `clone_from` of a Vec holding the inner states
+    fn copy_from(&mut self, src: &Self, via_vec: bool);
     fn append(&mut self, it: &Item) -> Result<(), String>;
     fn extend(&mut self, its: &[Item]) -> Result<(), String>;
     fn from_items(its: &[Item]) -> Result<Self, String>;
@@ -145,6 +148,15 @@ macro_rules! impl_arith_like {
             }
             fn new_alt() -> Self {
                 $wrap($inner::<F>::default())
+            }
+            fn copy_from(&mut self, src: &Self, via_vec: bool) {
+                if via_vec {
+                    let mut v = vec![self.0.clone()];
+                    v.clone_from(&vec![src.0.clone()]);
+                    self.0 = v.pop().unwrap();
+                } else {
+                    self.0.clone_from(&src.0);
+                }
             }
             fn append(&mut self, it: &Item) -> Result<(), String> {
                 StatisticsOps::append(&mut self.0, F::from64(it.x.0)).map_err(es)
@@ -258,6 +270,15 @@ impl<F: Fl> Acc for APaired<F> {
     fn new() -> Self {
         APaired(Paired::default())
     }
+    fn copy_from(&mut self, src: &Self, via_vec: bool) {
+        if via_vec {
+            let mut v = vec![self.0.clone()];
+            v.clone_from(&vec![src.0.clone()]);
+            self.0 = v.pop().unwrap();
+        } else {
+            self.0.clone_from(&src.0);
+        }
+    }
     fn append(&mut self, it: &Item) -> Result<(), String> {
         self.0.append_pair(F::from64(it.x.0), F::from64(it.y.0)).map_err(es)
     }
@@ -304,6 +325,15 @@ pub struct AUnpaired<F: Fl>(pub Unpaired<F>);
 impl<F: Fl> Acc for AUnpaired<F> {
     fn new() -> Self {
         AUnpaired(Unpaired::default())
+    }
+    fn copy_from(&mut self, src: &Self, via_vec: bool) {
+        if via_vec {
+            let mut v = vec![self.0.clone()];
+            v.clone_from(&vec![src.0.clone()]);
+            self.0 = v.pop().unwrap();
+        } else {
+            self.0.clone_from(&src.0);
+        }
     }
     fn append(&mut self, it: &Item) -> Result<(), String> {
         if it.flag {
@@ -399,6 +429,15 @@ impl Acc for AProp {
     fn new_alt() -> Self {
         AProp(proportion::Stats::new(0, 0))
     }
+    fn copy_from(&mut self, src: &Self, via_vec: bool) {
+        if via_vec {
+            let mut v = vec![self.0.clone()];
+            v.clone_from(&vec![src.0.clone()]);
+            self.0 = v.pop().unwrap();
+        } else {
+            self.0.clone_from(&src.0);
+        }
+    }
     fn append(&mut self, it: &Item) -> Result<(), String> {
         if it.flag {
             self.0.add_success()
@@ -464,6 +503,15 @@ impl Acc for AQuant {
     }
     fn new_alt() -> Self {
         AQuant(quantile::Stats::new(0))
+    }
+    fn copy_from(&mut self, src: &Self, via_vec: bool) {
+        if via_vec {
+            let mut v = vec![self.0.clone()];
+            v.clone_from(&vec![src.0.clone()]);
+            self.0 = v.pop().unwrap();
+        } else {
+            self.0.clone_from(&src.0);
+        }
     }
     fn append(&mut self, _it: &Item) -> Result<(), String> {
         self.0 += quantile::Stats::new(1);
@@ -567,7 +615,22 @@ fn interpret<S: Acc>(p: &Program, obs: &mut Obs) -> PResult {
             }
             Op::Copy { dst, src } => {
                 let (d, s) = (*dst as usize % 4, *src as usize % 4);
-                let c = Slot { s: slots[s].s.clone(), model: slots[s].model.clone(), depth: slots[s].depth };
+                // every way of copying a state: clone(), clone_from onto the (populated) destination, and the
+                // clone_from of a container of states
+                let copy = match step % 3 {
+                    0 => slots[s].s.clone(),
+                    1 => {
+                        let mut t = slots[d].s.clone();
+                        t.copy_from(&slots[s].s, false);
+                        t
+                    }
+                    _ => {
+                        let mut t = slots[d].s.clone();
+                        t.copy_from(&slots[s].s, true);
+                        t
+                    }
+                };
+                let c = Slot { s: copy, model: slots[s].model.clone(), depth: slots[s].depth };
                 slots[d] = c;
                 touched = d;
             }
